@@ -492,3 +492,166 @@ func handleAPI(line string, raw []byte, orc *vh.Oracle) {
 		}
 	}
 }
+
+// ---------------------------------------------------------------- hot + cold tiers with retention on the hot store
+// syshotcold groups=<n,n,...> evict=<e> : documents are ingested "now" (MID = wall clock) into a hot store, one sealed
+// fraction per group, and the same documents into a cold store; the hot store is reopened with a TotalSize that makes its
+// retention pass evict the `e` oldest fractions.  The real proxy (HotStores + ReadStores) is asked for windows starting
+// inside the evicted fractions' lifetime, at the oldest remaining fraction's creation time and later: the answer must be
+// all documents of the window (the hot store must refuse what it no longer holds so that the cold tier is asked).
+func runHotCold(root, line string) (resp sysResp) {
+	defer func() {
+		if r := recover(); r != nil {
+			resp.Err = "panic: " + fmt.Sprint(r)
+		}
+	}()
+	m := kv(strings.Fields(line)[1:])
+	var groups []int
+	for _, e := range splitList(m["groups"], ",") {
+		groups = append(groups, atoi(e))
+	}
+	evict := atoi(m["evict"])
+	dir, _ := os.MkdirTemp(root, "hc")
+	defer os.RemoveAll(dir)
+	mp, err := mappingprovider.New("", mappingprovider.WithMapping(seq.TestMapping))
+	if err != nil {
+		resp.Err = err.Error()
+		return
+	}
+	mk := func(name, mode string, total uint64) (*storeapi.Store, error) {
+		d := filepath.Join(dir, name)
+		os.MkdirAll(d, 0o755)
+		return storeapi.NewStore(context.Background(), storeapi.StoreConfig{
+			FracManager: fracmanager.Config{DataDir: d, FracSize: 1 << 30, TotalSize: total, MaintenanceDelay: time.Hour, ShouldReplay: true},
+			API:         storeapi.APIConfig{StoreMode: mode, Search: storeapi.SearchConfig{WorkersCount: 4, FractionsPerIteration: 2}},
+		}, mp)
+	}
+	stop := func(s *storeapi.Store) {
+		defer func() { recover() }()
+		s.FracManager.WaitIdle()
+		s.FracManager.Stop()
+	}
+	hot, err := mk("hot", storeapi.StoreModeHot, 1<<40)
+	if err != nil {
+		resp.Err = "hot: " + err.Error()
+		return
+	}
+	var docs []sdoc
+	var perFrac [][]sdoc
+	for gi, n := range groups {
+		time.Sleep(3 * time.Millisecond) // distinct creation times
+		var ds []sdoc
+		now := uint64(time.Now().UnixMilli())
+		for i := 0; i < n; i++ {
+			ds = append(ds, sdoc{seq.ID{MID: seq.MID(now), RID: seq.RID(gi*100 + i)}, []string{"a", "b"}[i%2]})
+		}
+		if err := appendDocs(hot.FracManager, ds); err != nil {
+			resp.Err = "append: " + err.Error()
+			stop(hot)
+			return
+		}
+		hot.FracManager.SealForcedForTests()
+		docs = append(docs, ds...)
+		perFrac = append(perFrac, ds)
+	}
+	var cts, sizes []uint64
+	var total uint64
+	for _, f := range hot.FracManager.GetAllFracs() {
+		if f.Info().DocsTotal > 0 {
+			cts = append(cts, f.Info().CreationTime)
+			sizes = append(sizes, f.Info().FullSize())
+			total += f.Info().FullSize()
+		}
+	}
+	stop(hot)
+	if len(cts) != len(groups) || evict >= len(groups) {
+		resp.Err = "layout"
+		return
+	}
+	keep := total
+	for i := 0; i < evict; i++ {
+		keep -= sizes[i]
+	}
+	hot, err = mk("hot", storeapi.StoreModeHot, keep) // the first maintenance pass (at start) evicts the oldest fractions
+	if err != nil {
+		resp.Err = "hot reopen: " + err.Error()
+		return
+	}
+	defer stop(hot)
+	for i := 0; i < 400; i++ {
+		n := 0
+		for _, f := range hot.FracManager.GetAllFracs() {
+			if f.Info().DocsTotal > 0 {
+				n++
+			}
+		}
+		if n <= len(groups)-evict && hot.FracManager.OldestCT.Load() != 0 {
+			break
+		}
+		time.Sleep(5 * time.Millisecond)
+	}
+	cold, err := mk("cold", storeapi.StoreModeCold, 1<<40)
+	if err != nil {
+		resp.Err = "cold: " + err.Error()
+		return
+	}
+	defer stop(cold)
+	for _, ds := range perFrac {
+		if err := appendDocs(cold.FracManager, ds); err != nil {
+			resp.Err = "append cold: " + err.Error()
+			return
+		}
+		cold.FracManager.SealForcedForTests()
+	}
+	ing := search.NewIngestor(search.Config{HotStores: &stores.Stores{Shards: [][]string{{"hot"}}}, ReadStores: &stores.Stores{Shards: [][]string{{"cold"}}}},
+		map[string]pb.StoreApiClient{"hot": storeapi.NewClient(hot), "cold": storeapi.NewClient(cold)})
+	var a, bb []string
+	froms := []uint64{cts[0] + 1, cts[evict], cts[len(cts)-1], 0}
+	if evict > 0 {
+		froms = append(froms, cts[evict-1]+1, cts[evict]-1)
+	}
+	for fi, from := range froms {
+		for _, desc := range []bool{true, false} {
+			var match []seq.ID
+			for _, d := range docs {
+				if uint64(d.id.MID) >= from {
+					match = append(match, d.id)
+				}
+			}
+			sortIDs(match, desc)
+			sr := &search.SearchRequest{Q: []byte(seq.TokenAll + ":*"), Size: 1000, From: seq.MID(from), To: seq.MID(uint64(time.Now().UnixMilli()) + 3600000),
+				WithTotal: true, Order: order(desc)}
+			qpr, _, _, err := ing.Search(context.Background(), sr, nil)
+			got := "err"
+			if err == nil {
+				got = fmt.Sprintf("%d ids, total %d, first %s", len(qpr.IDs), qpr.Total, relFirst(qpr.IDs.IDs(), cts[0]))
+			}
+			tag := fmt.Sprintf("window#%d desc=%v: ", fi, desc)
+			a = append(a, tag+fmt.Sprintf("%d ids, total %d, first %s", len(match), len(match), relFirst(match, cts[0])))
+			bb = append(bb, tag+got)
+		}
+	}
+	resp.A = strings.Join(a, " ; ")
+	resp.B = []string{strings.Join(bb, " ; ")}
+	return
+}
+
+func relFirst(ids []seq.ID, base uint64) string {
+	if len(ids) == 0 {
+		return "-"
+	}
+	return fmt.Sprintf("+%dms:%d", uint64(ids[0].MID)-base, uint64(ids[0].RID))
+}
+
+func genHotCold(g gen, o vh.Opts) []string {
+	var lines []string
+	for c := 0; c < o.Pick(6, 40); c++ {
+		k := g.r.Range(2, 4)
+		var gs []string
+		for i := 0; i < k; i++ {
+			gs = append(gs, fmt.Sprint(g.r.Range(1, 4)))
+		}
+		lines = append(lines, fmt.Sprintf("syshotcold groups=%s evict=%d", strings.Join(gs, ","), g.r.Range(1, k-1)))
+	}
+	return lines
+}
